@@ -92,7 +92,11 @@ def conclude(prop, tier, seed, kunits, kres, kinfo, vunits, vres, vinfo, known, 
                 undecided.append(f"{tag}: timeout")
         elif st_ in ("undecided", "missing"):
             why = e["unsupported"] or e["undetermined"] or e["covers_unsat"] or [st_]
-            undecided.append(f"{tag}: {st_}: {'; '.join(why)[:300]}")
+            if e.get("gate") == "yes" and e["checks"] == 0:
+                # a gate whose CBMC run died (out of memory / solver crash) is as unverified as one that timed out
+                unverified.append(f"{tag}: gate harness produced no result ({'; '.join(why)[:120]}) -> the function stays unverified (not counted)")
+            else:
+                undecided.append(f"{tag}: {st_}: {'; '.join(why)[:300]}")
 
     # ---- Verus
     for uname, e in vres.items():
